@@ -189,7 +189,7 @@ func (db *ContractDB) autoCtors() {
 			if !has {
 				continue
 			}
-			fc := &FuncContract{Ref: n, Pkg: pn, Fn: fn, Loops: map[int]*LoopContract{}, Line: "auto constructor contract", Auto: true, Props: []string{"C01", "C02", "C03"}, InlineOnly: true, AllowGlobals: true}
+			fc := &FuncContract{Ref: n, Pkg: pn, Fn: fn, Loops: map[int]*LoopContract{}, Line: "auto constructor contract", Auto: true, Props: []string{"C01", "C02", "C03", "C06"}, InlineOnly: true, AllowGlobals: true}
 			for _, p := range fn.Params {
 				fc.Params = append(fc.Params, p.Name())
 			}
